@@ -645,6 +645,24 @@ def check_versions(sh, rep, rule, rel, qual, fn):
             rep.bad(rule, key + "#mixes-versions", sh.loc(rel, mn), "the branch for Plutus V%s uses %s (V%s): code, hash, cost model or context of one version would be paired with another" % (hv, t, d))
         else:
             rep.ok(rule, key, sh.loc(rel, unit), sample={"version": hv, "markers": sorted({t for _, t, _, _ in ms})})
+    # an arm (or condition) shared by several versions cannot name any one version in its body: whatever it names is wrong
+    # for the other head version(s)
+    for n in walk(fn["body"]):
+        if n["k"] not in ("Arm", "If"):
+            continue
+        hv = sorted({d for d, _, _, _ in version_markers(n["pat"] if n["k"] == "Arm" else n["cond"])})
+        if len(hv) < 2:
+            continue
+        body = n["body"] if n["k"] == "Arm" else n["then"]
+        nested = set()
+        for hv2, u2, b2 in version_units(body):
+            for _, _, mn, _ in version_markers(u2):
+                nested.add(id(mn))
+        ms = [(d, t, mn) for d, t, mn, diag in version_markers(body) if id(mn) not in nested and not diag]
+        if ms:
+            cnt += 1
+            d, t, mn = ms[0]
+            rep.bad(rule, "%s#V%s#shared-%s#names-one-version" % (qual, "+V".join(hv), n["k"].lower()), sh.loc(rel, mn), "a branch taken for Plutus V%s builds %s (V%s): for the other version(s) of the branch the code is re-labelled — its hash prefix, address and cost model change with it" % (" and V".join(hv), t, d))
     return cnt
 
 
